@@ -135,7 +135,7 @@ PROPS = {
                        'piece carries the original whitespace and penalty, every cached width is the display width. Word::break_apart (U15, closure conversion), for every '
                        'word and limit: pieces are consecutive non-empty runs between fresh positions (never inside an escape sequence), cached width == display width, '
                        '<= limit unless the whole width comes from one character, maximal (the next piece starts with visible text that would not have fitted), inner pieces '
-                       'without whitespace/penalty, the last one with the word\'s.',
+                       'without whitespace/penalty, the last one with the word\'s.'
                        ' WordSplitter::split_points (U16): the hyphen splitter returns exactly the positions directly after each \'-\' with an alphanumeric character on both '
                        'sides, increasing, char boundaries strictly inside the word (the shape U14 assumes); NoHyphenation returns none.',
         'bounded_part': 'BEC: every clause again by execution on the real functions (incl. a custom hyphen-inserting splitter).',
